@@ -140,6 +140,49 @@ def match_ellipsis(doc, code, bind=None, known=()):
     return False
 
 
+def documented_defaults(ctx, rule):
+    """Where the documentation of a class or macro states the default of a parameter (":param x: ..., default is V"), the signature has that default."""
+    M = ctx.model
+    pat = re.compile(r":param\s+\\?\*{0,2}(\w+):.*?default is\s+(\S+)")
+    def value_of(tok):
+        tok = tok.rstrip(".,;)")
+        if tok in ("False", "True", "None"):
+            return {"False": False, "True": True, "None": None}[tok]
+        if re.fullmatch(r"-?\d+", tok):
+            return int(tok)
+        if tok in ("\\x00", "\x00", "\\\\x00"):
+            return b"\x00"
+        return ("?", tok)
+    n = 0
+    targets = []
+    for ci in M.classes.values():
+        doc = ast.get_docstring(ci.node, clean=False)
+        if doc and "__init__" in ci.methods:
+            targets.append((ci.name, doc, ci.methods["__init__"], ci.relpath))
+    for name, mf in M.macros().items():
+        doc = ast.get_docstring(mf.node, clean=False)
+        if doc:
+            targets.append((name, doc, mf.node, mf.relpath))
+    for name, doc, fn, rel in targets:
+        a = fn.args
+        names = [x.arg for x in a.args]
+        dfl = dict(zip(names[len(names) - len(a.defaults):], a.defaults))
+        dfl.update({k.arg: v for k, v in zip(a.kwonlyargs, a.kw_defaults) if v is not None})
+        for m in pat.finditer(doc):
+            prm, tok = m.group(1), m.group(2)
+            want = value_of(tok)
+            if isinstance(want, tuple):
+                continue
+            n += 1
+            have = dfl.get(prm)
+            try:
+                got = ast.literal_eval(have) if have is not None else ("no default",)
+            except Exception:
+                got = ("non-literal", ast.unparse(have))
+            ctx.ob(rule, name, got == want and type(got) == type(want), "%s(%s=...): documented default %r, signature default %r" % (name, prm, want, got), key="%s default %s" % (name, prm), loc="%s:%d" % (rel, fn.lineno))
+    return n
+
+
 def run(ctx):
     M = ctx.model
     sing = M.singletons()
@@ -306,6 +349,10 @@ def run(ctx):
         except (ValueError, SyntaxError, IndexError, KeyError, TypeError) as e:
             ctx.error("C12.R2: law `%s` (%s) fits no discharge method: %s" % (text, loc, e))
     ctx.floor("C12.R2", 20)
+
+    # ---------------------------------------------------------------- R8 documented defaults: ":param x: ... default is V" in a docstring vs the signature
+    documented_defaults(ctx, "C12.R8")
+    ctx.floor("C12.R8", 12)
 
     # ---------------------------------------------------------------- R3 what the alias / integer laws additionally rest on
     from . import C03
